@@ -343,3 +343,31 @@ package mqtt
 //@ pure
 //@ requires 0 <= i && i < len(*publishReleaseKeys) && 0 <= j && j < len(*publishReleaseKeys)
 //@ ensures[C02,C16] less == (at(*storeOrderPerKey, (*publishReleaseKeys)[i]) < at(*storeOrderPerKey, (*publishReleaseKeys)[j]))
+
+// FileSystem store, relative to the POSIX model in /verif/contracts/stdlib.spec.
+// The file of a key and its spool file are distinct names.
+//@ func mqtt.fileSystem.file -> s
+//@ unverified
+//@ pure
+//@ ensures sid(s) == fsname(sid(dir), key, 0)
+
+//@ func mqtt.fileSystem.spoolFile -> s
+//@ unverified
+//@ pure
+//@ ensures sid(s) == fsname(sid(dir), key, 1)
+
+//@ func mqtt.fileSystem.Save -> err
+//@ at[C19] call Rename#1: assert fs_sync(sid(oldpath)) && wire_len(boxed(*os.File, f)) == old(flatlen(value)) && fh_name(f) == sid(oldpath)
+//@ ensures[C19] err == nil ==> fs_exists(fsname(sid(dir), key, 0)) && fs_sync(fsname(sid(dir), key, 0))
+//@ ensures[C19] err != nil ==> fs_exists(fsname(sid(dir), key, 0)) == old(fs_exists(fsname(sid(dir), key, 0))) && fs_log(fsname(sid(dir), key, 0)) == old(fs_log(fsname(sid(dir), key, 0))) && fs_sync(fsname(sid(dir), key, 0)) == old(fs_sync(fsname(sid(dir), key, 0)))
+//@ ensures[C19] forall(n, n != fsname(sid(dir), key, 0) && n != fsname(sid(dir), key, 1) ==> fs_exists(n) == old(fs_exists(n)) && fs_log(n) == old(fs_log(n)) && fs_sync(n) == old(fs_sync(n)))
+
+//@ func mqtt.fileSystem.Delete -> err
+//@ ensures[C19] err == nil ==> !fs_exists(fsname(sid(dir), key, 0))
+//@ ensures[C19] err != nil ==> fs_exists(fsname(sid(dir), key, 0)) == old(fs_exists(fsname(sid(dir), key, 0)))
+//@ ensures[C19] forall(n, n != fsname(sid(dir), key, 0) ==> fs_exists(n) == old(fs_exists(n))) && forall(n, fs_log(n) == old(fs_log(n)) && fs_sync(n) == old(fs_sync(n)))
+
+//@ func mqtt.fileSystem.Load -> value, err
+//@ ensures[C19] !fs_exists(fsname(sid(dir), key, 0)) ==> value == nil && err == nil
+//@ ensures[C19] err == nil && value != nil ==> fs_exists(fsname(sid(dir), key, 0))
+//@ ensures[C19] forall(n, fs_exists(n) == old(fs_exists(n)) && fs_log(n) == old(fs_log(n)) && fs_sync(n) == old(fs_sync(n)))
